@@ -8,6 +8,9 @@ import (
 
 func histCfg(focus, tier string, allowClose bool) HistCfg {
 	cfg := HistCfg{MinOps: 12, MaxOps: 45, Colls: 2, PMalformed: 0.06, Focus: focus, AllowClose: allowClose}
+	if focus == "catalog" {
+		cfg.Colls = 4
+	}
 	if tier == "thorough" {
 		cfg.MaxOps = 70
 	}
@@ -43,6 +46,11 @@ func runHistStream(seed int64, n int, out, backendSpec, focus, tier string) *Run
 				continue
 			}
 			cs.Add(res.caseTerm(), i < 2 && bi == 0)
+			for _, m := range res.OracleFails {
+				if len(fails) < 20 {
+					fails = append(fails, m)
+				}
+			}
 			for _, s := range res.Steps {
 				evals++
 				ek := errKind(s.Res)
